@@ -32,4 +32,67 @@ TEXT = {
         "level_note": "Assumed: CBC/OR-Tools optimality and enumeration contract (C05); variables identified by (name template, values); constraints degenerate to Python booleans are treated as linear constraints. Not decided: read-out after setObjective (bounded native check only), agreement with independent solvers.",
         "design_ref": "DESIGN.md 5/C02",
     },
+    "C03": {
+        "category": "other",
+        "level_text": "estimate_cn's dispatch (user-supplied structure used verbatim, unknown names rejected, two default copies / one for a male X/Y gene when copy-number calling is unavailable), _parse_user_solution and CNSolution.__init__ (structure = the given list as a multiset, region copy numbers = sum over the listed configurations) are proved for all inputs by VC generation (three nested summarised loops, Counter as a finite sum). The structure model solve_cn_model is not yet under contract in this round, hence level 'other'.",
+        "level_note": 'Assumed: solver contract. Not decided: the ILP builder and read-out of solve_cn_model; the VCF branch of genotype().',
+        "technique": "sidecar contracts on the real functions; bounded native contract checking (CPython) as stand-in where no VC is generated yet; VC generation + z3 for the accessor functions listed in the evidence",
+        "design_ref": "DESIGN.md 5/C03",
+    },
+    "C06": {
+        "category": "other",
+        "level_text": '_parse_read, bin_quality, _in_region and _make_coverage carry contracts transcribed from the statement (depth +1 per spanned reference position, substitution/reference counts, MNP merging, qualities, phase record, CIGAR-split and read-order independence, eligibility interval test, folding of out-of-range substitutions, frame of norm/muts). The contracts are written from the statement; in this round they are NOT discharged deductively but executed natively on generated inputs against the real code (bounded stand-in, labelled as such, never counted as proved); every run reports the number of cases and replays failing inputs.',
+        "level_note": 'pysam/htslib trusted; two clauses fail on the unchanged tree and are recorded as known findings (F14 mapping quality binned, F18 silent MNPs not merged).',
+        "technique": "sidecar contracts on the real functions; bounded native contract checking (CPython) as stand-in where no VC is generated yet; VC generation + z3 for the accessor functions listed in the evidence",
+        "design_ref": "DESIGN.md 5/C06",
+    },
+    "C08": {
+        "category": "other",
+        "level_text": 'Gene.__init__ (maps inverse, genome-oriented reference, per-kind haplotype equality of loaded vs written variants on both strands, reference alleles, RefSeq notation), get_refseq, _reverse_op, __getitem__ carry contracts from the statement, run over generated consistent databases (both strands, alignment gaps, all variant kinds) and all 38 shipped databases x 2 builds. The contracts are written from the statement; in this round they are NOT discharged deductively but executed natively on generated inputs against the real code (bounded stand-in, labelled as such, never counted as proved); every run reports the number of cases and replays failing inputs.',
+        "level_note": 'yaml trusted; variants straddling an alignment gap are outside the antecedent; F17 (_reverse_op on delins) was found by this check and fixed.',
+        "technique": "sidecar contracts on the real functions; bounded native contract checking (CPython) as stand-in where no VC is generated yet; VC generation + z3 for the accessor functions listed in the evidence",
+        "design_ref": "DESIGN.md 5/C08",
+    },
+    "C09": {
+        "category": "other",
+        "level_text": 'Gene.__init__ (reachability, one major per allele, distinct (structure, core) keys, functional/silent split, distinct minors, existing configurations, partial alleles = retained variants, build independence) and get_allele are checked natively on generated and shipped databases; the look-up accessors region_at, has_coverage, deletion_allele are proved by VC generation. The contracts are written from the statement; in this round they are NOT discharged deductively but executed natively on generated inputs against the real code (bounded stand-in, labelled as such, never counted as proved); every run reports the number of cases and replays failing inputs.',
+        "level_note": 'Known findings F20 (partial duplicates a database allele), F10 (opposite-strand builds), F21 (UGT1A1 data).',
+        "technique": "sidecar contracts on the real functions; bounded native contract checking (CPython) as stand-in where no VC is generated yet; VC generation + z3 for the accessor functions listed in the evidence",
+        "design_ref": "DESIGN.md 5/C09",
+    },
+    "C11": {
+        "category": "other",
+        "level_text": 'estimate_diplotype, get_major_name and get_major_diplotype carry contracts from the statement (every copy once, both haplotypes non-empty, deletion placeholders, names, tandem adjacency, natural order, order independence for <= 2 copies). The contracts are written from the statement; in this round they are NOT discharged deductively but executed natively on generated inputs against the real code (bounded stand-in, labelled as such, never counted as proved); every run reports the number of cases and replays failing inputs.',
+        "level_note": 'natsort trusted.',
+        "technique": "sidecar contracts on the real functions; bounded native contract checking (CPython) as stand-in where no VC is generated yet; VC generation + z3 for the accessor functions listed in the evidence",
+        "design_ref": "DESIGN.md 5/C11",
+    },
+    "C12": {
+        "category": "other",
+        "level_text": 'write_decomposition and write_vcf carry contracts whose spec functions parse the written text back and compare it with the reported solutions (rows = definition + added - missing; GT/MA/MI per solution and copy; POS; REF/ALT). The contracts are written from the statement; in this round they are NOT discharged deductively but executed natively on generated inputs against the real code (bounded stand-in, labelled as such, never counted as proved); every run reports the number of cases and replays failing inputs.',
+        "level_note": "Five clauses of write_vcf fail on the unchanged tree and are recorded as known findings F3a-F3e (shared genotype table, missing ignored, indel/complex REF-ALT, ':' in allele names).",
+        "technique": "sidecar contracts on the real functions; bounded native contract checking (CPython) as stand-in where no VC is generated yet; VC generation + z3 for the accessor functions listed in the evidence",
+        "design_ref": "DESIGN.md 5/C12",
+    },
+    "C14": {
+        "category": "other",
+        "level_text": 'Frame conditions (modifies() = nothing reachable from the gene database or the evidence changes) are PROVED by VC generation for the coverage, gene and structure accessors and for Coverage.filtered (fresh object, receiver untouched), and checked natively for the solution accessors, estimate_diplotype and write_decomposition. F2 (SolvedAllele.mutations updated the catalogue in place) was found by the frame clause and fixed.',
+        "level_note": 'Not decided: process-level determinism (fresh process, hash seed, multi-gene runs), candidate isolation in estimate_minor (F6), CBC determinism.',
+        "technique": "sidecar contracts on the real functions; bounded native contract checking (CPython) as stand-in where no VC is generated yet; VC generation + z3 for the accessor functions listed in the evidence",
+        "design_ref": "DESIGN.md 5/C14",
+    },
+    "C16": {
+        "category": "other",
+        "level_text": 'Sample._load_vcf (including the nested get_mut) carries a contract from the statement: k alternate copies add 10k observations to the catalogued variant and remove 10k reference observations at its site, other shapes and non-diploid genotypes are ignored without failing, no key with an undefined change is stored. The contracts are written from the statement; in this round they are NOT discharged deductively but executed natively on generated inputs against the real code (bounded stand-in, labelled as such, never counted as proved); every run reports the number of cases and replays failing inputs. Inputs are small indexed VCF files written with pysam.',
+        "level_note": 'pysam trusted; F5a (None key aborts the run) found and fixed; F5b (insertion support lost) and F15 (MNP never supported) are known findings.',
+        "technique": "sidecar contracts on the real functions; bounded native contract checking (CPython) as stand-in where no VC is generated yet; VC generation + z3 for the accessor functions listed in the evidence",
+        "design_ref": "DESIGN.md 5/C16",
+    },
+    "C17": {
+        "category": "other",
+        "level_text": 'The dump round trip (_dump_alignments then _load_dump into a second Sample) must reproduce the eight dumped fields (observations as multisets, phases up to renaming), and _make_coverage must not modify the lists it is given (the dump is written from them afterwards). The contracts are written from the statement; in this round they are NOT discharged deductively but executed natively on generated inputs against the real code (bounded stand-in, labelled as such, never counted as proved); every run reports the number of cases and replays failing inputs.',
+        "level_note": "pickle/gzip/tar trusted; F16 (in-place extension of the caller's lists) found by the frame clause and fixed. Not decided: equality of output files of the replayed run.",
+        "technique": "sidecar contracts on the real functions; bounded native contract checking (CPython) as stand-in where no VC is generated yet; VC generation + z3 for the accessor functions listed in the evidence",
+        "design_ref": "DESIGN.md 5/C17",
+    },
 }
